@@ -63,7 +63,11 @@ class P:
         A = ("ref", "a")
         crafted = [[("un", p, ("post", ("post", A, "++"), q))] for p in prefix for q in postfix] + \
                   [[("post", ("post", ("post", A, "++"), "--"), "++")], [("post", ("un", "-", ("post", A, "++")), "--")],
-                   [("bin", "+", ("un", "-", ("post", ("post", A, "--"), "++")), ("post", ("post", ("lit", "1"), "++"), "++"))]]
+                   [("bin", "+", ("un", "-", ("post", ("post", A, "--"), "++")), ("post", ("post", ("lit", "1"), "++"), "++"))]] + \
+                  [[("tern", ("bin", op, A, ("bin", "+", ("ref", "b"), ("lit", "1"))), ("ref", "c"), ("ref", "d"))] for op in ("=", "+=", "<<=", "||", "==", "in")] + \
+                  [[("tern", ("bin", "=", A, ("bin", "=", ("ref", "b"), ("bin", ">", ("ref", "z"), ("lit", "3")))), ("lit", "1"), ("lit", "2"))],
+                   [("bin", "=", A, ("tern", ("bin", "+", ("ref", "b"), ("lit", "1")), ("ref", "c"), ("ref", "d")))],
+                   [("tern", ("un", "-", A), ("bin", "=", ("ref", "b"), ("lit", "1")), ("bin", "=", ("ref", "b"), ("lit", "2")))]]
         for k in range(nprog + len(crafted)):
             ts = crafted[k] if k < len(crafted) else progs.gen_stmts(rng, depth=rng.choice([2, 3, 4]))
             out, spans, stmt_starts = [], [], []
@@ -89,7 +93,7 @@ class P:
             lt = astproto.parse_tokens(both[0])
             # subexpression spans are those of the INTENDED tree: valid only if the text really parses to it (juxtaposed
             # statements may fuse: `a` `(1)` is a call, `a` `- 1` a subtraction)
-            if len(both) > 1 and both[1].split(":")[0] == "OK" and intended[i] is not None and both[1].split(":")[1] != intended[i]:
+            if juxt and len(both) > 1 and both[1].split(":")[0] == "OK" and intended[i] is not None and both[1].split(":")[1] != intended[i]:
                 spans = []; self.fused += 1
             if not lt or lt[1] != "EOF": continue
             toks = lt[0]
